@@ -116,24 +116,42 @@ def build_lean():
     _lean_built = True
 
 
-def _prune_cache(prefix, keep=14):
+def _prune_cache(prefix=None, keep=24, window_s=30 * 60):
+    """Bounds the harness cache (disk is limited): the newest `keep` binaries stay; an older one is removed
+    unless it was used within the last half hour (every cache hit touches the file, and no single check
+    runs that long) — a concurrent check against another tree may still be executing it.  Stale lock and
+    temporary files go with their binaries."""
     if not os.path.isdir(CACHE):
         return
-    items = [os.path.join(CACHE, f) for f in os.listdir(CACHE) if f.startswith(prefix) and "." not in f]
-    items.sort(key=lambda p: os.path.getmtime(p), reverse=True)
     now = time.time()
-    for p in items[keep:]:
-        # never remove a binary touched in the last three hours: a concurrent check (several may run
-        # against different trees at once) may still be executing it
+    names = os.listdir(CACHE)
+    items = []
+    for f in names:
+        p = os.path.join(CACHE, f)
+        if "." in f or f == "lean.lock":
+            continue
         try:
-            if now - os.path.getmtime(p) < 3 * 3600:
-                continue
+            items.append((os.path.getmtime(p), p))
         except OSError:
+            pass
+    items.sort(reverse=True)
+    for mt, p in items[keep:]:
+        if now - mt < window_s:
             continue
         try:
             if os.path.isdir(p):
                 shutil.rmtree(p)
             else:
+                os.remove(p)
+        except OSError:
+            pass
+    for f in names:
+        if f == "lean.lock" or "." not in f:
+            continue
+        p = os.path.join(CACHE, f)
+        base = os.path.join(CACHE, f.split(".")[0])
+        try:
+            if not os.path.exists(base) and now - os.path.getmtime(p) > window_s:
                 os.remove(p)
         except OSError:
             pass
